@@ -30,7 +30,9 @@ MODELLED = {"CheckTernary": "check_ternary", "CheckLineLen": "check_line_len", "
             "CheckUtypeDeclaration": "(fun t s v => check_utype_forbidden t s ft v)", "CheckExpressionStatement": "check_expression_statement",
             "CheckControlStatement": "check_control_statement",
             # third batch (Gen/NameChecks.v): other signatures, adapted to `result` in the cases file; extra inputs xf xp xv xc
-            "CheckIdentifierName": "adapt_ident xf xp xv", "CheckComment": "adapt_comment xc"}
+            "CheckIdentifierName": "adapt_ident xf xp xv", "CheckComment": "adapt_comment xc",
+            # fourth batch (Gen/PreprocChecks.v): needs the token values (xw) and context.preproc.indent (xi)
+            "CheckPreprocessorIndent": "adapt_ppi xi xw"}
 # slices: only these codes are emitted by the translated part (Gen: check_*_codes); an exception of the untranslated rest is not compared
 SLICE_CODES = {"CheckUtypeDeclaration": {"TYPE_NOT_GLOBAL", "FORBIDDEN_STRUCT", "FORBIDDEN_UNION", "FORBIDDEN_ENUM", "FORBIDDEN_TYPEDEF"},
                "CheckControlStatement": {"WRONG_SCOPE", "EXP_NEWLINE", "FORBIDDEN_CS", "ASSIGN_IN_CONTROL"}}
@@ -91,6 +93,9 @@ def _install_probe():
             item["xv"] = [(t_.value or "", t_.pos[0], t_.pos[1]) for t_ in sc.vars_name]
         if name == "CheckComment":
             item["xc"] = type(sc).__name__.lower()
+        if name == "CheckPreprocessorIndent":
+            item["glob"] = isinstance(sc, GlobalScope)
+            item["xi"] = context.preproc.indent
         # which token positions the check really reads (peek_token is the only accessor besides tokens[:tkn_scope])
         reads = [-1, 0]
         orig_peek = context.peek_token
@@ -125,6 +130,8 @@ def _install_probe():
                 win = [(t.type, t.pos[0], t.pos[1]) for t in toks0]
                 cut = False
             item["win"], item["cut"], item["maxread"] = win, cut, reads[0]
+            if name == "CheckPreprocessorIndent":
+                item["xw"] = [t.value for t in (toks0 if len(win) == len(toks0) else toks0[:m] + [toks0[-1]])][:len(win)]
             item["line0"] = win[0][1] if win else None
             item["em"] = [(e.name, e.highlights[0].lineno, e.highlights[0].column) for e in inner[before:]
                           if name not in SLICE_CODES or e.name in SLICE_CODES[name]]
@@ -194,7 +201,7 @@ def coq_cases_text(cases, types, rules, codes):
     The window is exact: it holds every position the implementation read (recorded through peek_token), and the last
     token of the file for the index -1; when the history is cut, at least three entries and the newest three that
     CheckLineIndent does not skip are kept (the len(history) tests of the checks compare with 1 only)."""
-    o = ["From NV Require Import Model.Base Model.RuleChecks Gen.RuleChecks Gen.MoreChecks Model.NameBase Gen.NameChecks.\nOpen Scope Z_scope.\n"]
+    o = ["From NV Require Import Model.Base Model.RuleChecks Gen.RuleChecks Gen.MoreChecks Model.NameBase Gen.NameChecks Model.PreprocBase Gen.PreprocChecks.\nOpen Scope Z_scope.\n"]
     o.append("Definition tys : list str := [%s].\n" % "; ".join('s "%s"' % t for t in types))
     o.append("Definition rls : list str := [%s].\n" % "; ".join('s "%s"' % t for t in rules))
     o.append("Definition cds : list str := [%s].\n" % "; ".join('s "%s"' % t for t in codes))
@@ -205,7 +212,10 @@ def coq_cases_text(cases, types, rules, codes):
              "  | Ok E => Ok (E, v) | Fatal m => Fatal m | Crash e => Crash e | Hang => Hang end.\n")
     o.append("Definition adapt_comment (xc : str) (toks : list token) (scope : Z) (v : view) : result := Ok (check_comment toks (v_history v) xc, v).\n")
     o.append("Definition S_ (l : list nat) : str := map N.of_nat l.\n")
-    o.append("Definition run_check (k : nat) (ft : str) (xf : option str) (xp : Z) (xv : list (str * Z * Z)) (xc : str) := match k with %s | _ => check_ternary end.\n" % " | ".join(
+    o.append("Definition adapt_ppi (xi : Z) (xw : list (option str)) (toks : list token) (scope : Z) (v : view) : result :=\n"
+             "  match check_preproc_indent (with_vals toks xw) (v_scope_global v) xi with\n"
+             "  | Ok E => Ok (E, v) | Fatal m => Fatal m | Crash e => Crash e | Hang => Hang end.\n")
+    o.append("Definition run_check (k : nat) (ft : str) (xf : option str) (xp : Z) (xv : list (str * Z * Z)) (xc : str) (xi : Z) (xw : list (option str)) := match k with %s | _ => check_ternary end.\n" % " | ".join(
         "%d%%nat => %s" % (i, MODELLED[c]) for i, c in enumerate(CHECK_IDS)))
     ti = {t: i for i, t in enumerate(types)}
     ri = {t: i for i, t in enumerate(rules)}
@@ -215,20 +225,21 @@ def coq_cases_text(cases, types, rules, codes):
              "  match r with Crash e => (oc =? 2) && exn_eqb e ex | _ => agrees r oc E ia va end.\n")
     o.append("Definition one (id : Z) (toks : list token) (cut : bool) (hist : list str) (ck : nat) (scope : Z) (sname : str) (glob : bool) (indent : Z)\n"
              "  (ia va : bool) (oc : Z) (ex : exn) (E : list em) (ia2 va2 : bool) (ft : str)\n"
-             "  (xf : option str) (xp : Z) (xv : list (str * Z * Z)) (xc : str) : list Z :=\n"
+             "  (xf : option str) (xp : Z) (xv : list (str * Z * Z)) (xc : str) (xi : Z) (xw : list (option str)) : list Z :=\n"
              "  let v := mkview hist sname glob indent ia va in\n"
-             "  if agrees_x (run_check ck ft xf xp xv xc toks scope v) oc ex E ia2 va2 then [] else [id].\n")
+             "  if agrees_x (run_check ck ft xf xp xv xc xi xw toks scope v) oc ex E ia2 va2 then [] else [id].\n")
     o.append("Definition results : list Z := List.concat [\n")
     lines = []
     b = lambda x: "true" if x else "false"  # noqa
     for cid, r in enumerate(cases):
-        lines.append(" one %d [%s] %s [%s] %d (%d) (s \"%s\") %s (%d) %s %s %d %s [%s] %s %s (s \"%s\") %s (%d) [%s] %s" % (
+        lines.append(" one %d [%s] %s [%s] %d (%d) (s \"%s\") %s (%d) %s %s %d %s [%s] %s %s (s \"%s\") %s (%d) [%s] %s (%d) [%s]" % (
             cid, "; ".join("T %d %d %d" % (ti[t], l, c) for t, l, c in r["win"]), b(r["cut"]),
             "; ".join("R %d" % ri[h] for h in r["hist"]), CHECK_IDS.index(r["check"]), r["scope"], r["sname"], b(r["glob"]),
             r["indent"], b(r["ia"]), b(r["va"]), r["oc"], EXN.get(r.get("exc"), "Unmodelled"), "; ".join("C %d %d %d" % (ci[c], l, k) for c, l, k in r["em"]),
             b(r["ia2"]), b(r["va2"]), r.get("ftype", ".c"),
             ("None" if r.get("xf") is None else "(Some %s)" % cs_(r["xf"])), r.get("xp", 0),
-            "; ".join("(%s, %d, %d)" % (cs_(a), l, k) for a, l, k in r.get("xv", [])), cs_(r.get("xc", ""))))
+            "; ".join("(%s, %d, %d)" % (cs_(a), l, k) for a, l, k in r.get("xv", [])), cs_(r.get("xc", "")), r.get("xi", 0),
+            "; ".join("None" if w is None else "(Some %s)" % cs_(w) for w in r.get("xw", []))))
     o.append(";\n".join(lines) + "].\nEval vm_compute in results.\n")
     return "".join(o)
 
